@@ -70,7 +70,7 @@ def check(col: Collector, tier: str):
             raise AnalysisError(f"{hname} not found")
         bt = [c for c in ast.walk(h.node) if isinstance(c, ast.Call) and call_name(c) == "base_type_member_access"]
         dm = [c for c in ast.walk(h.node) if isinstance(c, ast.Call) and call_name(c) == "determine_type_mf"]
-        ok = len(bt) == 1 and len(dm) == 1 and len(bt[0].args) == 2 and src(bt[0].args[1]) == "m_info.deref_depth"
+        ok = len(bt) == 1 and len(dm) == 1 and src(arg(bt[0], 1, "extra_deref")) == "m_info.deref_depth"
         if ok:
             recv = src(bt[0].args[0])
             ok = src(dm[0].args[0]) == f"{recv}.cpp_type()" and src(dm[0].args[1]) == name_expr
@@ -150,9 +150,10 @@ def check(col: Collector, tier: str):
     ok = len(arms) == 2 and given == ["parse_type(md['return_type_collection'])"] and len(dflt) == 1 and "std::vector<" in dflt[0]
     col.add("C10.R3", "process_metadata.add_method_type_info", "collection-type-default-is-std::vector", ok, "", pmf.loc)
     add = [c for c in ast.walk(body) if isinstance(c, ast.Call) and call_name(c) == "add_method_type_info"]
-    ok = len(add) == 1 and [src(a).replace('"', "'") for a in add[0].args[:3]] == ["md['type_string']", "md['method_name']", "term"] and len(add[0].args) == 4
+    dd = arg(add[0], 3, "deref_depth") if len(add) == 1 else None
+    ok = len(add) == 1 and [src(a).replace('"', "'") for a in add[0].args[:3]] == ["md['type_string']", "md['method_name']", "term"] and dd is not None
     if ok:
-        dvals = [src(v).replace('"', "'") for v, _ in conditional_defs(pmf.node, add[0].args[3])]
+        dvals = [src(v).replace('"', "'") for v, _ in conditional_defs(pmf.node, dd)]
         ok = dvals == ["int(md.get('deref_count', 0))"]
     col.add("C10.R3", "process_metadata.add_method_type_info", "registered-under-type-and-method-with-deref-count", ok,
             "add_method_type_info(md['type_string'], md['method_name'], term, int(md['deref_count']) or 0)", pmf.loc)
@@ -189,7 +190,7 @@ def check(col: Collector, tier: str):
     col.add("C10.R4", ms.short, "loops-over-the-dereferenced-collection", ok, "loop(iterator, dereference_var(rep))", ms.loc)
     vsub = m["visit_Subscript"]
     cv = [c for c in ast.walk(vsub.node) if isinstance(c, ast.Call) and call_name(c) == "cpp_value"]
-    ok = len(cv) == 1 and src(kwarg(cv[0], "cpp_type")) == "v.get_element_type()" and "base_type_member_access(v)" in src(cv[0].args[0])
+    ok = len(cv) == 1 and src(arg(cv[0], 2, "cpp_type")) == "v.get_element_type()" and "base_type_member_access(v)" in src(cv[0].args[0])
     col.add("C10.R4", vsub.short, "indexed-element-has-the-element-type", ok, "", vsub.loc)
     check_default_vector_type(col, "C10.R4", repo)
     ci_ = repo.find_class("collection").methods["__init__"]
